@@ -507,10 +507,58 @@ func (x *Exec) readyNow(cfg *Config, ch Term) Term {
 // selectOp models a non-blocking select over receive cases on context Done
 // channels: a case is taken iff its channel is ready.
 func (x *Exec) selectOp(cfg *Config, f *Frame, i *ssa.Select) ([]*Config, bool) {
-	if i.Blocking {
-		if f.watcher == nil {
-			unsupported("blocking select")
+	if i.Blocking && f.watcher == nil {
+		// a blocking select over receive cases returns when one of the
+		// channels is ready. One path per case: a context's Done channel is
+		// ready iff the context is done (now, after other goroutines may have
+		// run); for any other channel the path records the ghost fact
+		// recvready(ch): a receive on it was possible (a value was sent or it
+		// was closed) - which is all the waiter knows.
+		x.interfere(cfg)
+		rt := i.Type().(*types.Tuple)
+		var forks []*Config
+		first := true
+		for k, stt := range i.States {
+			if stt.Dir != types.RecvOnly {
+				unsupported("blocking select with a send case")
+			}
+			c := cfg
+			if !first {
+				c = nil
+			}
+			_ = c
+			first = false
+			_ = k
 		}
+		base := cfg.clone()
+		for k, stt := range i.States {
+			c := cfg
+			if k > 0 {
+				c = base.clone()
+			}
+			cf := c.top()
+			ch := x.tv(x.get(cf, stt.Chan))
+			if strings.HasPrefix(ch.S, "(ctx.donechan ") {
+				ctx := Term{ch.S[len("(ctx.donechan ") : len(ch.S)-1], SInt}
+				c.st.assume(x.doneNow(c.st, ctx))
+			} else {
+				rr := x.heapGet(c.st, "$recvready", SArr(SInt, SBool))
+				c.st.heap["$recvready"] = Store(rr, ch, True)
+			}
+			tup := TupV{TV{T: x.intLit(int64(k), x.intSort(types.Typ[types.Int]))}, TV{T: x.d.Fresh("recvok", SBool)}}
+			for j := 2; j < rt.Len(); j++ {
+				tup = append(tup, x.symbolicOf(c.st, x.d.FreshName("recv"), rt.At(j).Type()))
+			}
+			cf.regs[i] = tup
+			cf.idx++
+			if k > 0 {
+				forks = append(forks, c)
+			}
+		}
+		x.usedTrusted["blocking select: returns when one of its receive cases is ready (context done / value sent or channel closed)"] = true
+		return forks, false
+	}
+	if i.Blocking {
 		// a parked goroutine: take a case this function has enabled
 		rt := i.Type().(*types.Tuple)
 		for k, stt := range i.States {
